@@ -7,7 +7,7 @@ K05b (E/F) the model path: source text -> System -> Class.mro()/find()/docsource
 """
 import itertools
 
-from lib.hx import harness, pick, pickb, done, tier, PART, note
+from lib.hx import harness, pick, pickb, done, tier, PART, note, sample
 
 PROPERTY = "C05"
 LEVEL = "model_checking"
@@ -164,6 +164,7 @@ def gen_source(blists, defmask, docmask, generic):
 def check_model(blists, defmask, docmask, generic=False):
     n = len(blists)
     src = gen_source(blists, defmask, docmask, generic)
+    sample(source=src)
     ns = {}
     pyerr = None
     try:
